@@ -1,1 +1,268 @@
-// harnesses for node (none yet)
+// C10 — contacts are classified good / questionable / bad per BEP5 timing (node level).
+//
+// The solver picks an arbitrary history of K events for one contact; a reference log of what
+// happened is kept next to the real `Node`, and after every event the real `status()` is compared
+// with what the property statement allows for that log.
+use super::*;
+use crate::verif::{clock, concrete_addr_v4, concrete_id};
+use std::time::Duration;
+
+const FIFTEEN_MIN: Duration = Duration::from_secs(15 * 60);
+
+/// What happened to the contact so far (reference log, independent of `Node`'s fields).
+struct Log {
+    last_answer: Option<Duration>,
+    ever_answered: bool,
+    /// last query from the contact that was delivered to it (it was a known, reported contact then)
+    last_query: Option<Duration>,
+    /// queries we sent since its last answer (or re-admission) while it was not good, all unanswered
+    unanswered_while_not_good: u32,
+}
+
+impl Log {
+    fn answered_recently(&self, now: Duration) -> bool {
+        match self.last_answer {
+            Some(t) => now.saturating_sub(t) < FIFTEEN_MIN,
+            None => false,
+        }
+    }
+    fn queried_recently(&self, now: Duration) -> bool {
+        match self.last_query {
+            Some(t) => now.saturating_sub(t) < FIFTEEN_MIN,
+            None => false,
+        }
+    }
+    /// Reference classification used only to decide "was it good when we sent that query".
+    fn good(&self, now: Duration) -> bool {
+        self.answered_recently(now) || (self.unanswered_while_not_good < 2 && self.queried_recently(now))
+    }
+}
+
+/// Returns whether the contact is currently reported (good or questionable).
+fn check(node: &Node, log: &Log) -> bool {
+    let now = clock::now();
+    let s = node.status();
+    let pingable = node.is_pingable();
+    // reported good only if it answered or (being known) queried within the last 15 minutes
+    if s == NodeStatus::Good {
+        assert!(
+            log.answered_recently(now) || log.queried_recently(now),
+            "C10: reported good without an answer or a query within the last 15 minutes"
+        );
+    }
+    // an answer keeps it good for 15 minutes
+    if log.answered_recently(now) {
+        assert!(s == NodeStatus::Good, "C10: answered within 15 minutes but not reported good");
+    }
+    // BEP5: has answered before and queried us within 15 minutes (and is not bad) => good
+    if log.ever_answered && log.queried_recently(now) && log.unanswered_while_not_good < 2 {
+        assert!(s == NodeStatus::Good, "C10: answered before and queried within 15 minutes but not reported good");
+    }
+    // known only by hearsay: questionable until it answers or queries (or is dropped as bad)
+    if !log.ever_answered && log.last_query.is_none() && log.unanswered_while_not_good < 2 {
+        assert!(s == NodeStatus::Questionable, "C10: hearsay-only contact is not questionable");
+    }
+    // two consecutive queries unanswered while not good => no longer reported
+    assert!(pingable == (s != NodeStatus::Bad), "C10: is_pingable disagrees with status");
+    if log.unanswered_while_not_good >= 2 {
+        assert!(!pingable, "C10: contact still reported after two unanswered queries while not good");
+    } else {
+        assert!(pingable, "C10: contact dropped although fewer than two queries went unanswered while it was not good");
+    }
+    pingable
+}
+
+fn history(k: usize) {
+    // all symbolic inputs first (replay convention, DESIGN.md 3.6)
+    let kinds: [u8; 6] = kani::any();
+    let wait_s: [u64; 6] = kani::any();
+    let wait_ns: [u32; 6] = kani::any();
+    let first_is_answer: bool = kani::any();
+    for i in 0..6 {
+        kani::assume(kinds[i] < 5);
+        kani::assume(wait_s[i] <= 40 * 60 && wait_ns[i] < 1_000_000_000);
+    }
+    clock::start_symbolic();
+
+    let id = concrete_id(7, 1);
+    let addr = concrete_addr_v4(1);
+    let mut log = Log {
+        last_answer: None,
+        ever_answered: false,
+        last_query: None,
+        unanswered_while_not_good: 0,
+    };
+    let mut node = if first_is_answer {
+        log.last_answer = Some(clock::now());
+        log.ever_answered = true;
+        Node::as_good(id, addr)
+    } else {
+        Node::as_questionable(id, addr)
+    };
+    let mut reported = check(&node, &log);
+
+    let mut i = 0;
+    while i < k {
+        let now = clock::now();
+        match kinds[i] {
+            0 => {
+                // the contact answered one of our queries (Bucket::add_node -> update(as_good))
+                node.update(Node::as_good(id, addr));
+                log.last_answer = Some(now);
+                log.ever_answered = true;
+                log.unanswered_while_not_good = 0;
+                assert!(node.status() == NodeStatus::Good, "C10: an accepted answer did not make the contact good at once");
+            }
+            1 => {
+                // another node named it (update(as_questionable)); a contact that was dropped as bad
+                // starts a new history as a questionable one (what C11's wording expects)
+                let was_reported = reported;
+                node.update(Node::as_questionable(id, addr));
+                if !was_reported {
+                    log.unanswered_while_not_good = 0;
+                    log.last_query = None;
+                }
+            }
+            2 => {
+                // it sent us a query: only contacts currently reported are looked up (find_node_mut)
+                if reported {
+                    node.remote_request();
+                    log.last_query = Some(now);
+                }
+            }
+            3 => {
+                // we sent it a query (callers go through find_node_mut as well)
+                if reported {
+                    let good_before = log.good(now);
+                    node.local_request();
+                    if !good_before {
+                        log.unanswered_while_not_good += 1;
+                    }
+                }
+            }
+            _ => {
+                clock::wait(Duration::new(wait_s[i], wait_ns[i]));
+            }
+        }
+        reported = check(&node, &log);
+        i += 1;
+    }
+    let end = node.status();
+    kani::cover!(end == NodeStatus::Bad, "history ends bad");
+    kani::cover!(end == NodeStatus::Good && !log.answered_recently(clock::now()), "good by query only");
+    kani::cover!(end == NodeStatus::Questionable && log.ever_answered, "answered once, now questionable");
+}
+
+#[kani::proof]
+#[kani::unwind(21)]
+fn c10_history_k4() {
+    history(4);
+}
+
+#[kani::proof]
+#[kani::unwind(21)]
+fn c10_history_k5() {
+    history(5);
+}
+
+#[kani::proof]
+#[kani::unwind(21)]
+fn c10_history_k6() {
+    history(6);
+}
+
+/// Boundary instance: answer, wait exactly d, check; d symbolic around 15 minutes at 1 ns resolution.
+#[kani::proof]
+#[kani::unwind(3)]
+fn c10_fifteen_minute_boundary() {
+    let s: u64 = kani::any();
+    let ns: u32 = kani::any();
+    let by_query: bool = kani::any();
+    kani::assume(s >= 14 * 60 && s <= 16 * 60 && ns < 1_000_000_000);
+    clock::start_symbolic();
+    let id = concrete_id(7, 1);
+    let addr = concrete_addr_v4(1);
+    let mut node = Node::as_good(id, addr);
+    let d = Duration::new(s, ns);
+    if by_query {
+        // answered long ago, queried us now
+        clock::wait(Duration::from_secs(3600));
+        node.remote_request();
+    }
+    clock::wait(d);
+    let good = node.status() == NodeStatus::Good;
+    assert!(good == (d < FIFTEEN_MIN), "C10: 15-minute boundary misplaced");
+    kani::cover!(d == FIFTEEN_MIN, "exactly 15 minutes");
+}
+
+// ---------------------------------------------------------------------------------------------
+// Constructor of arbitrary node states for the bucket/table harnesses (C08, C09, C12).
+// ---------------------------------------------------------------------------------------------
+
+/// A node with the given identity whose history fields are arbitrary: last answer `resp_age`
+/// seconds ago, optional last query from it `req_age` seconds ago, optional last query to it,
+/// `refresh` unanswered queries. Every such state is accepted by `Node`'s own methods; the real
+/// `status()` decides its standing.
+pub(crate) fn node_in_state(
+    id: NodeId,
+    addr: SocketAddr,
+    resp_age_s: u64,
+    req_age_s: Option<u64>,
+    refresh: usize,
+) -> Node {
+    let now = Instant::now();
+    Node {
+        handle: NodeHandle { id, addr },
+        last_response: Some(now - Duration::from_secs(resp_age_s)),
+        last_request: req_age_s.map(|a| now - Duration::from_secs(a)),
+        last_local_request: None,
+        refresh_requests: refresh,
+    }
+}
+
+/// Arbitrary live-or-bad state for a known identity (symbolic ages up to 2 h, 0..=3 unanswered queries).
+pub(crate) fn symbolic_node(id: NodeId, addr: SocketAddr) -> Node {
+    let resp_age: u64 = kani::any();
+    let has_req: bool = kani::any();
+    let req_age: u64 = kani::any();
+    let refresh: usize = kani::any();
+    kani::assume(resp_age <= 7200 && req_age <= 7200 && refresh <= 3);
+    node_in_state(id, addr, resp_age, if has_req { Some(req_age) } else { None }, refresh)
+}
+
+/// Identity (id, addr) in an arbitrary state, including "never answered" (what an empty slot's
+/// placeholder looks like to `status()`): bad, questionable or good as the real `status()` decides.
+/// The handle is always the concrete (id, addr): see DESIGN.md F21 for why slot occupancy is not
+/// made symbolic through the handle.
+pub(crate) fn symbolic_slot(id: NodeId, addr: SocketAddr) -> Node {
+    symbolic_slot_with(id, addr, false)
+}
+
+/// `coarse`: ages are drawn from {0, 899, 900, 3600} s (both sides of the 15-minute rule) instead
+/// of every second in [0, 2 h]; the standing outcomes are the same, the formula is much smaller.
+pub(crate) fn symbolic_slot_with(id: NodeId, addr: SocketAddr, coarse: bool) -> Node {
+    let never_answered: bool = kani::any();
+    let has_req: bool = kani::any();
+    let refresh: usize = kani::any();
+    kani::assume(refresh <= 3);
+    let (resp_age, req_age) = if coarse {
+        let a: u8 = kani::any();
+        let b: u8 = kani::any();
+        kani::assume(a < 4 && b < 4);
+        const AGES: [u64; 4] = [0, 899, 900, 3600];
+        (AGES[a as usize], AGES[b as usize])
+    } else {
+        let resp_age: u64 = kani::any();
+        let req_age: u64 = kani::any();
+        kani::assume(resp_age <= 7200 && req_age <= 7200);
+        (resp_age, req_age)
+    };
+    let now = Instant::now();
+    Node {
+        handle: NodeHandle { id, addr },
+        last_response: if never_answered { None } else { Some(now - Duration::from_secs(resp_age)) },
+        last_request: if never_answered || !has_req { None } else { Some(now - Duration::from_secs(req_age)) },
+        last_local_request: None,
+        refresh_requests: if never_answered { 0 } else { refresh },
+    }
+}
